@@ -1208,7 +1208,7 @@ impl<'de> de::Deserializer<'de> for &mut Deserializer<'de> {
                         self.wire_type
                     )));
                 }
-                let value = visitor.visit_seq(Compound::new(
+                let mut access = Compound::new(
                     self,
                     Style::Struct {
                         expect,
@@ -1216,7 +1216,12 @@ impl<'de> de::Deserializer<'de> for &mut Deserializer<'de> {
                         expect_idx: 0,
                         wire_idx: 0,
                     },
-                ))?;
+                );
+                let value = visitor.visit_seq(&mut access)?;
+                // A tuple visitor stops after its own arity. The wire tuple may be longer
+                // (`record {t0; t1; t2} <: record {t0; t1}`): skip what was not asked for,
+                // like the record path does for surplus fields.
+                while de::SeqAccess::next_element::<de::IgnoredAny>(&mut access)?.is_some() {}
                 Ok(value)
             }
             _ => check!(false),
